@@ -53,9 +53,17 @@ type skey struct {
 	C string
 }
 
-func mkString(i int) string { return fmt.Sprintf("k%d", i) }
-func mkInt(i int) int       { return i*7919 + 13 }
-func mkSkey(i int) skey     { return skey{A: int8(i), B: int64(i) * 1000003, C: fmt.Sprintf("s%d", i/3)} }
+func mkString(i int) string {
+	switch i {
+	case 0:
+		return "" // the empty string is a valid key (and a special case of the string hash)
+	case 2:
+		return "k\x00" // embedded NUL
+	}
+	return fmt.Sprintf("k%d", i)
+}
+func mkInt(i int) int   { return i*7919 + 13 }
+func mkSkey(i int) skey { return skey{A: int8(i), B: int64(i) * 1000003, C: fmt.Sprintf("s%d", i/3)} }
 
 // ---------------------------------------------------------------------------
 // map-like containers
